@@ -169,7 +169,7 @@ HIST_RULES = {
 }
 
 
-def check_history(ctx, features=(), level="exploration"):
+def check_history(ctx, features=(), level="exploration", extra_step=None):
     bins = {"chk": build_harness("chk", features), "rel": build_harness("rel", features)}
     extra = [ctx.replay] if ctx.replay else []
     nfiles, _ = run_replays(ctx, bins, extra)
@@ -183,7 +183,53 @@ def check_history(ctx, features=(), level="exploration"):
         write_evidence(ctx, level, cov, HIST_ASSUMPTIONS)
         return
     agg = hist_search(ctx, bins, features)
-    write_evidence(ctx, level, hist_coverage(ctx, agg, nfiles, rule_of(ctx.prop), bins), HIST_ASSUMPTIONS)
+    cov = hist_coverage(ctx, agg, nfiles, rule_of(ctx.prop), bins)
+    if extra_step is not None:
+        extra_step(ctx, bins, cov)
+    write_evidence(ctx, level, cov, HIST_ASSUMPTIONS)
+
+
+def c07_enumeration(ctx, bins, cov):
+    """All 4^n decision vectors for n <= N on fresh, churned and cross-archetype populations."""
+    plan = [("rel", 5), ("chk", 4)] if ctx.tier == "quick" else [("rel", 6), ("chk", 6)]
+    work = os.path.join(VERIF, ".work", "C07-e-%d" % os.getpid())
+    os.makedirs(work, exist_ok=True)
+    try:
+        jobs = [((name, n), [bins[name], "c07enum", "--world", "WMix", "--max-n", str(n), "--out", os.path.join(work, name + ".json"), "--fail-out", os.path.join(work, name + ".ops")]) for name, n in plan]
+        total = nt = 0
+        samples = []
+        for (name, n), (rc, out) in sorted(run_many(jobs, 7200).items()):
+            if rc is None:
+                raise Inconclusive("C07 enumeration timed out")
+            if rc == 1:
+                for line in out.splitlines():
+                    if line.startswith("FAIL "):
+                        d = parse_line(line)
+                        dst = os.path.join(found_dir("C07"), "enum-%s-%s.ops" % (d.get("sig", "fail"), name))
+                        shutil.copyfile(os.path.join(work, name + ".ops"), dst)
+                        report_failure(ctx, d.get("sig", "?"), dst, "[%s, exhaustive decision vectors] %s" % (name, d.get("msg", "")))
+            elif rc != 0:
+                dst = os.path.join(found_dir("C07"), "enum-crash-%s.txt" % name)
+                with open(dst, "w") as f:
+                    f.write("vh-run c07enum --world WMix --max-n %d died with status %s on the %s build\n%s" % (n, rc, name, out[-2000:]))
+                report_failure(ctx, "crash", dst, "[%s] exhaustive enumeration died with status %s" % (name, rc))
+            if os.path.exists(os.path.join(work, name + ".json")):
+                st = json.load(open(os.path.join(work, name + ".json")))
+                total += st["cases"]
+                nt += st["nontrivial"]
+                samples.extend(st["samples"][:1])
+        cov["evaluations"] += total
+        cov["distinct_nontrivial"] += nt
+        cov["exhaustive_decision_vectors"] = {"exhaustive": True, "cases": total, "nontrivial": nt, "plan": ["%s: all 4^n vectors for n <= %d" % p for p in plan],
+                                              "populations": "per n: fresh single archetype and churned single archetype (4 closure-parameter variants each), four splits of n entities over the three archetypes matched by the cross query `&Word`",
+                                              "note": "this sub-space is enumerated completely; the generated histories above are sampled"}
+        cov["samples"] = (cov["samples"] + samples)[:4]
+    finally:
+        shutil.rmtree(work, ignore_errors=True)
+
+
+def check_c07(ctx):
+    check_history(ctx, extra_step=c07_enumeration)
 
 
 HIST_RULES["C17"] = "histories (harness built with feature events) with both creation paths incl. refused create_within_capacity, all four destroy key kinds at both levels, ecs_iter_destroy!, destroys of stale handles, per-archetype and world-level clear_events at arbitrary points, clones; after every step the per-archetype and world-level event iterators are compared (as multisets) with the model's logs and size_hint is checked before every next(); non-trivial = an observation with >= 2 archetypes with non-empty and >= 1 with empty logs, plus a destroy through a dynamic key or ecs_iter_destroy!, plus a clear; distinct = hash of the decoded op list"
@@ -861,6 +907,61 @@ def check_c19(ctx):
     write_evidence(ctx, "exploration", cov, HIST_ASSUMPTIONS + ["the differential compares only what the oracle is lenient about; everything else is already pinned by the model in every configuration"])
 
 
+def check_c12(ctx):
+    bins = {"chk": build_harness("chk"), "rel": build_harness("rel")}
+    extra = [ctx.replay] if ctx.replay and ctx.replay.endswith(".ops") else []
+    nfiles, _ = run_replays(ctx, bins, extra)
+    # the 2^24 limit: reached by with_capacity and by growth (decided outside the per-history search:
+    # ~1-2 s and ~700 MB per scenario on the zero-sized archetype of WOne)
+    starts = [(1 << 24) - 3, 0] if ctx.tier == "quick" else [(1 << 24) - 3, 0, (1 << 24) - 1, 1 << 24, 3 << 22, 1, 5]
+    bfiles = sorted(glob.glob(os.path.join(VERIF, "replays", "C12", "*.boundary")))
+    if ctx.replay and ctx.replay.endswith(".boundary"):
+        bfiles.append(ctx.replay)
+    for f in bfiles:
+        for line in open(f):
+            if line.startswith("boundary "):
+                starts.append(int(line.split()[1]))
+    work = os.path.join(VERIF, ".work", "C12-b-%d" % os.getpid())
+    os.makedirs(work, exist_ok=True)
+    jobs = []
+    for name, b in sorted(bins.items()):
+        if name == "chk" and ctx.tier == "quick":
+            use = starts[:1]
+        else:
+            use = starts
+        for st in sorted(set(use)):
+            jobs.append(((name, st), [b, "boundary", "--world", "WOne", "--start", str(st), "--fail-out", os.path.join(work, "%s-%d.boundary" % (name, st))]))
+    boundary = []
+    try:
+        # at most 4 at a time: each needs ~700 MB
+        for i in range(0, len(jobs), 4):
+            for (name, st), (rc, out) in sorted(run_many(jobs[i:i + 4], 1800).items()):
+                if rc is None:
+                    raise Inconclusive("capacity-limit scenario timed out")
+                if rc == 1:
+                    for line in out.splitlines():
+                        if line.startswith("FAIL "):
+                            d = parse_line(line)
+                            dst = os.path.join(found_dir("C12"), "capacity-limit-%s-%d.boundary" % (name, st))
+                            shutil.copyfile(os.path.join(work, "%s-%d.boundary" % (name, st)), dst)
+                            report_failure(ctx, "capacity-limit", dst, "[%s, start capacity %d] %s" % (name, st, d.get("msg", "")))
+                elif rc != 0:
+                    # killed for memory etc.: never a violation
+                    raise Inconclusive("capacity-limit scenario died with status %s: %s" % (rc, out[-300:]))
+                else:
+                    boundary.append("%s: %s" % (name, [l for l in out.splitlines() if l.startswith("STATS")][0]))
+    finally:
+        shutil.rmtree(work, ignore_errors=True)
+    if ctx.replay:
+        write_evidence(ctx, "exploration", {"evaluations": nfiles + len(boundary), "distinct_nontrivial": 2, "rule": "replay of saved inputs only", "samples": [open(ctx.replay).read()]}, HIST_ASSUMPTIONS)
+        return
+    agg = hist_search(ctx, bins)
+    cov = hist_coverage(ctx, agg, nfiles, rule_of("C12") + "; plus the capacity-limit scenarios: with_capacity(2^24) accepted and 2^24+1 refused; an archetype filled to exactly 16 777 216 entities from the listed starting capacities (by growth and by with_capacity), every create below the limit succeeds with a fresh handle, capacity never exceeds the limit, create_within_capacity refuses and create panics with 'capacity overflow' at the limit, afterwards len/capacity/handles are intact, a freed position is reused, the representation invariant holds", bins)
+    cov["evaluations"] += len(boundary)
+    cov["capacity_limit_scenarios"] = boundary
+    write_evidence(ctx, "exploration", cov, HIST_ASSUMPTIONS)
+
+
 def check_c08(ctx):
     import farm
     bins = {"chk": build_harness("chk"), "rel": build_harness("rel")}
@@ -869,7 +970,30 @@ def check_c08(ctx):
     if ctx.replay:
         write_evidence(ctx, "exploration", {"evaluations": nfiles, "distinct_nontrivial": 2, "rule": "replay of saved inputs only", "samples": [open(ctx.replay).read()]}, HIST_ASSUMPTIONS)
         return
+    # real 2^32 - 1 create/destroy cycles on one position, no hook (about 45 s, runs beside the search)
+    cyc_out = os.path.join(VERIF, ".work", "C08-cycles-%d" % os.getpid())
+    os.makedirs(os.path.dirname(cyc_out), exist_ok=True)
+    cyc = subprocess.Popen([bins["rel"], "cycles", "--fail-out", cyc_out + ".cycles"], cwd=VERIF, stdout=subprocess.PIPE, stderr=subprocess.STDOUT, text=True)
     agg = hist_search(ctx, bins)
+    try:
+        cout = cyc.communicate(timeout=3600)[0]
+    except subprocess.TimeoutExpired:
+        cyc.kill()
+        raise Inconclusive("the 2^32-cycle run exceeded its watchdog")
+    if cyc.returncode == 1:
+        for line in cout.splitlines():
+            if line.startswith("FAIL "):
+                d = parse_line(line)
+                dst = os.path.join(found_dir("C08"), "real-cycles.cycles")
+                shutil.copyfile(cyc_out + ".cycles", dst)
+                report_failure(ctx, "real-cycles", dst, "[rel, 2^32 real cycles] %s" % d.get("msg", ""))
+    elif cyc.returncode != 0:
+        dst = os.path.join(found_dir("C08"), "real-cycles-crash.cycles")
+        with open(dst, "w") as f:
+            f.write("# vh-run cycles died with status %s\ncycles\n" % cyc.returncode)
+        report_failure(ctx, "crash", dst, "[rel] the 2^32-cycle run died with status %s: %s" % (cyc.returncode, cout[-300:]))
+    if os.path.exists(cyc_out + ".cycles"):
+        os.remove(cyc_out + ".cycles")
     # "not across archetypes" also rests on ecs_world! refusing two archetypes with one id
     pg = farm.build_pg()
     p = run_engine_p(ctx, pg, "C08", emit_args=["--pairs", "24" if ctx.tier == "quick" else "200"])
@@ -877,9 +1001,11 @@ def check_c08(ctx):
     cov["evaluations"] += p["jobs"]
     cov["distinct_nontrivial"] += p["pairs_ok"]
     cov["archetype_id_collision_programs"] = {k: v for k, v in p.items() if k != "samples"}
+    cov["real_cycles_without_hook"] = [l for l in cout.splitlines() if l.startswith("STATS")]
+    cov["evaluations"] += 1
     write_evidence(ctx, "exploration", cov, HIST_ASSUMPTIONS + ["rustc for the declaration-level part"])
 
 
-HANDLERS = {"C19": check_c19, "C08": check_c08, "C17": check_c17, "C14": check_c14, "C03": check_c03, "C10": check_c10, "C11": check_c11, "C05": check_program_prop, "C15": check_program_prop, "C16": check_program_prop, "C18": check_program_prop}
-for _p in ("C01", "C02", "C04", "C06", "C07", "C09", "C12", "C13"):
+HANDLERS = {"C07": check_c07, "C19": check_c19, "C12": check_c12, "C08": check_c08, "C17": check_c17, "C14": check_c14, "C03": check_c03, "C10": check_c10, "C11": check_c11, "C05": check_program_prop, "C15": check_program_prop, "C16": check_program_prop, "C18": check_program_prop}
+for _p in ("C01", "C02", "C04", "C06", "C09", "C13"):
     HANDLERS[_p] = check_history
